@@ -133,3 +133,11 @@ func VerifC27Run(input []byte, keepAlive bool, script []VerifC27Action) VerifC27
 	res.Out = append([]byte(nil), fc.out.Bytes()...)
 	return res
 }
+
+// VerifC27ResetStatusCache empties the process-wide Status-Line cache of statusLine(), so that one
+// harness case (a sequence of exchanges) does not depend on the cases run before it.
+func VerifC27ResetStatusCache() {
+	statusMu.Lock()
+	statusLines = make(map[int]string)
+	statusMu.Unlock()
+}
